@@ -199,6 +199,10 @@ Definition image_with_center (d : drawable) (c : point) : image :=
 (* mod.rs Dimensions for Image *)
 Definition image_box (i : image) : rect := translate_rect (d_box (im_drawable i)) (im_offset i).
 
+(* mod.rs Transform for Image: translate (`offset: self.offset + by`) and translate_mut (`self.offset += by`) *)
+Definition image_translate (i : image) (by_ : point) : image := Img (im_drawable i) (padd (im_offset i) by_).
+Definition image_translate_mut (i : image) (by_ : point) : image := Img (im_drawable i) (padd (im_offset i) by_).
+
 (* translated.rs fill_contiguous: `area.translate(self.offset)`, colours passed through *)
 Definition translated_call (offset : point) (c : icall) : icall :=
   match c with FillContiguous area cs => FillContiguous (translate_rect area offset) cs end.
